@@ -18,7 +18,8 @@ import Generated.Opcodes
   `ResolveBalances`, `Execute`, metadata merge — gives exactly the postings, metadata and printed values (or the
   error class) `Spec.run` gives, and no panic.  Side conditions (`Script.wellFormed`): at least one statement, lists
   shorter than 2^64, no portion literal with a zero denominator — all three hold of everything the front end
-  produces, none is a restriction of the language. -/
+  produces from a text shorter than 2^64 characters (`front_wellFormed`, hence `compile_correct_text`), none is a
+  restriction of the language. -/
 namespace C08
 open Num Cache
 
